@@ -139,6 +139,35 @@ func resetPipe(c pipeCfg) proto {
 	}
 }
 
+// ---- the REAL main() (renamed vflowMain by the instrumenter) --------------------------------------
+// main()'s calls of GetOptions and of the four constructors are redirected here: GetOptions cannot be re-run
+// per execution (flag registration, PID file, kill -0), the constructors are wrapped so that the harness can
+// look at the objects main() creates. Everything else in main() - signal registration, starting the
+// protocols, waiting for the signal, the shutdown calls, the final wait - is the repository's code.
+// (a fixed array touched only from norace functions: the harness looking at what main() constructed must not
+// synchronise the two, nor be reported as racing with it)
+var mainProtos [4]proto
+
+//go:norace
+func setMainProto(i int, p proto) { mainProtos[i] = p }
+
+//go:norace
+func getMainProto(i int) proto { return mainProtos[i] }
+
+func zzGetOptions() *Options { return opts }
+func zzNewSFlow() *SFlow     { p := NewSFlow(); setMainProto(ppSFlow, p); return p }
+func zzNewIPFIX() *IPFIX     { p := NewIPFIX(); setMainProto(ppIPFIX, p); return p }
+func zzNewNetflowV5() *NetflowV5 {
+	p := NewNetflowV5()
+	setMainProto(ppV5, p)
+	return p
+}
+func zzNewNetflowV9() *NetflowV9 {
+	p := NewNetflowV9()
+	setMainProto(ppV9, p)
+	return p
+}
+
 func pipePort(p int) int { return []int{4739, 4729, 9996, 6343}[p] }
 
 func pipeMQ(p int) chan []byte {
@@ -1017,6 +1046,10 @@ type shutItem struct {
 	// early: between the two cycles the collector is started once more and gets the signal AT ONCE - as soon as
 	// main has installed its handler, without waiting for the listeners, without any traffic or look at the counters
 	early bool
+	// realMain: the repository's own main() runs (all four protocols constructed, the ones not under test disabled)
+	// instead of the replica of its orchestration; again: a second signal 0.3 virtual seconds after the first
+	realMain bool
+	again    bool
 }
 
 // mainReplica is main()'s orchestration (vflow.go: start every protocol, wait for the signal,
@@ -1065,6 +1098,21 @@ func sendSignal() {
 	venv.SignalChan() <- os.Interrupt
 }
 
+// sendSignalAgain: the same signal once more while the collector is stopping. The runtime delivers to the
+// registered channel without blocking; with no channel registered any more the default action applies.
+func sendSignalAgain() {
+	sched.Point("second signal")
+	ch := venv.SignalChan()
+	if ch == nil {
+		sched.Fail("signal:default-action", "a second signal while the collector is stopping finds no handler registered: the default action terminates the process before the templates are saved")
+		return
+	}
+	select {
+	case ch <- os.Interrupt:
+	default:
+	}
+}
+
 func runShutdown(it shutItem, al map[string]pdgram, cacheFile string, out *shutObs, mu *realsync.Mutex) {
 	os.Remove(cacheFile)
 	var o shutObs
@@ -1073,7 +1121,15 @@ func runShutdown(it shutItem, al map[string]pdgram, cacheFile string, out *shutO
 		o.phase = fmt.Sprintf("cycle %d: start", cycle)
 		set()
 		pr := resetPipe(pipeCfg{proto: it.proto, workers: it.workers, udpCap: it.udpCap, mqCap: 1000, cache: cacheFile})
-		mainTid := sched.GoNamed("main", func() { mainReplica([]proto{pr}) })
+		var mainTid int
+		if it.realMain {
+			setMainProto(it.proto, nil)
+			mainTid = sched.GoNamed("main", vflowMain)
+			sched.WaitCond(func() bool { return getMainProto(it.proto) != nil }, "main() has constructed the protocols")
+			pr = getMainProto(it.proto)
+		} else {
+			mainTid = sched.GoNamed("main", func() { mainReplica([]proto{pr}) })
+		}
 		port := pipePort(it.proto)
 		sched.WaitCond(func() bool { return venv.Conn(port) != nil && venv.SignalChan() != nil }, "listening")
 		conn := venv.Conn(port)
@@ -1128,6 +1184,10 @@ func runShutdown(it shutItem, al map[string]pdgram, cacheFile string, out *shutO
 		}
 		if it.after == 0 {
 			signal(n)
+		}
+		if it.again {
+			sched.Sleep(3e8)
+			sendSignalAgain()
 		}
 		t0 := sched.Now()
 		o.phase = fmt.Sprintf("cycle %d: waiting for exit", cycle)
@@ -1220,15 +1280,15 @@ func runShutdown(it shutItem, al map[string]pdgram, cacheFile string, out *shutO
 func c15LockItems(tier string) []shutItem {
 	var out []shutItem
 	for _, p := range []int{ppIPFIX, ppV9} {
-		out = append(out, shutItem{"template read right before the signal", p, 1, 1000, []string{"dataB-short", "inband-tpl"}, 0, 2, false, true, true, 0, false})
+		out = append(out, shutItem{"template read right before the signal", p, 1, 1000, []string{"dataB-short", "inband-tpl"}, 0, 2, false, true, true, 0, false, false, false})
 		// the collector stays down for two hours (the cache code reads the virtual clock in this build)
-		out = append(out, shutItem{"restart after two hours of downtime", p, 1, 1000, []string{"dataB-short"}, 0, 1, false, false, false, 7200e9, false})
+		out = append(out, shutItem{"restart after two hours of downtime", p, 1, 1000, []string{"dataB-short"}, 0, 1, false, false, false, 7200e9, false, false, false})
 		if tier == "thorough" {
-			out = append(out, shutItem{"restart after 400 days of downtime", p, 2, 1000, []string{"dataB-short"}, 0, 1, false, false, false, 400 * 86400e9, false})
-			out = append(out, shutItem{"template read right before the signal", p, 1, 1000, []string{"dataB-short", "inband-tpl"}, 0, 2, false, true, false, 0, false})
-			out = append(out, shutItem{"template read right before the signal", p, 2, 1000, []string{"dataB-short", "inband-tpl"}, 0, 2, false, true, false, 0, false})
-			out = append(out, shutItem{"template read right before the signal", p, 1, 1, []string{"inband-tpl", "dataB-short"}, 0, 2, false, true, false, 0, false})
-			out = append(out, shutItem{"template burst around the signal", p, 1, 1000, []string{"inband-tpl", "inband-data", "template", "dataB-short"}, 2, 1, false, true, false, 0, false})
+			out = append(out, shutItem{"restart after 400 days of downtime", p, 2, 1000, []string{"dataB-short"}, 0, 1, false, false, false, 400 * 86400e9, false, false, false})
+			out = append(out, shutItem{"template read right before the signal", p, 1, 1000, []string{"dataB-short", "inband-tpl"}, 0, 2, false, true, false, 0, false, false, false})
+			out = append(out, shutItem{"template read right before the signal", p, 2, 1000, []string{"dataB-short", "inband-tpl"}, 0, 2, false, true, false, 0, false, false, false})
+			out = append(out, shutItem{"template read right before the signal", p, 1, 1, []string{"inband-tpl", "dataB-short"}, 0, 2, false, true, false, 0, false, false, false})
+			out = append(out, shutItem{"template burst around the signal", p, 1, 1000, []string{"inband-tpl", "inband-data", "template", "dataB-short"}, 2, 1, false, true, false, 0, false, false, false})
 		}
 	}
 	return out
@@ -1241,30 +1301,33 @@ func c15Items(tier string) []shutItem {
 		if tier == "thorough" {
 			for _, w := range []int{1, 2} {
 				for _, cap := range []int{1000, 1} {
-					out = append(out, shutItem{"idle", p, w, cap, nil, 0, 3, false, false, false, 0, false})
-					out = append(out, shutItem{"data before the signal", p, w, cap, []string{"dataB-short", "dataA-mid"}, 0, 2, false, false, false, 0, false})
-					out = append(out, shutItem{"data around the signal", p, w, cap, []string{"dataB-short", "dataA-mid", "dataB-short"}, 2, 2, false, false, false, 0, false})
+					out = append(out, shutItem{"idle", p, w, cap, nil, 0, 3, false, false, false, 0, false, false, false})
+					out = append(out, shutItem{"data before the signal", p, w, cap, []string{"dataB-short", "dataA-mid"}, 0, 2, false, false, false, 0, false, false, false})
+					out = append(out, shutItem{"data around the signal", p, w, cap, []string{"dataB-short", "dataA-mid", "dataB-short"}, 2, 2, false, false, false, 0, false, false, false})
 					if flow {
-						out = append(out, shutItem{"template burst around the signal", p, w, cap, []string{"inband-tpl", "inband-data", "template", "dataB-short"}, 2, 2, false, false, false, 0, false})
+						out = append(out, shutItem{"template burst around the signal", p, w, cap, []string{"inband-tpl", "inband-data", "template", "dataB-short"}, 2, 2, false, false, false, 0, false, false, false})
 					}
 				}
 			}
-			out = append(out, shutItem{"signal during start-up between two runs", p, 2, 1000, nil, 0, 2, false, false, false, 0, true})
+			out = append(out, shutItem{"signal during start-up between two runs", p, 2, 1000, nil, 0, 2, false, false, false, 0, true, false, false})
 			continue
 		}
-		out = append(out, shutItem{"idle", p, 1, 1000, nil, 0, 2, false, false, false, 0, false})
+		out = append(out, shutItem{"idle", p, 1, 1000, nil, 0, 2, false, false, false, 0, false, false, false})
 		b := 1
 		if p == ppIPFIX || p == ppSFlow {
 			b = 2
 		}
-		out = append(out, shutItem{"data before the signal", p, 1, 1000, []string{"dataB-short", "dataA-mid"}, 0, b, false, false, false, 0, false})
-		out = append(out, shutItem{"data around the signal", p, 1, 1, []string{"dataB-short", "dataA-mid", "dataB-short"}, 2, 1, false, false, false, 0, false})
-		out = append(out, shutItem{"data around the signal", p, 2, 1000, []string{"dataB-short", "dataA-mid"}, 1, 1, false, false, false, 0, false})
+		out = append(out, shutItem{"data before the signal", p, 1, 1000, []string{"dataB-short", "dataA-mid"}, 0, b, false, false, false, 0, false, false, false})
+		out = append(out, shutItem{"data around the signal", p, 1, 1, []string{"dataB-short", "dataA-mid", "dataB-short"}, 2, 1, false, false, false, 0, false, false, false})
+		out = append(out, shutItem{"data around the signal", p, 2, 1000, []string{"dataB-short", "dataA-mid"}, 1, 1, false, false, false, 0, false, false, false})
 		if flow {
-			out = append(out, shutItem{"template burst around the signal", p, 2, 1000, []string{"inband-tpl", "inband-data", "template", "dataB-short"}, 2, 1, false, false, false, 0, false})
-			out = append(out, shutItem{"template re-announced shorter before the second stop", p, 1, 1000, nil, 0, 1, true, false, false, 0, false})
+			out = append(out, shutItem{"template burst around the signal", p, 2, 1000, []string{"inband-tpl", "inband-data", "template", "dataB-short"}, 2, 1, false, false, false, 0, false, false, false})
+			out = append(out, shutItem{"template re-announced shorter before the second stop", p, 1, 1000, nil, 0, 1, true, false, false, 0, false, false, false})
 		}
-		out = append(out, shutItem{"signal during start-up between two runs", p, 1, 1000, nil, 0, 1, false, false, false, 0, true})
+		out = append(out, shutItem{"signal during start-up between two runs", p, 1, 1000, nil, 0, 1, false, false, false, 0, true, false, false})
+		// the repository's own main() instead of the replica of its orchestration
+		out = append(out, shutItem{"real main(): data before the signal", p, 1, 1000, []string{"dataB-short"}, 0, 1, false, false, false, 0, false, true, false})
+		out = append(out, shutItem{"real main(): the signal is repeated while the collector is stopping", p, 1, 1000, []string{"dataB-short"}, 0, 1, false, false, false, 0, false, true, true})
 	}
 	return out
 }
